@@ -160,10 +160,10 @@ def guarded(fn):
 
 # ----------------------------------------------------------------------------------------------- derivations
 
-def evolve_cfg(obj, method, **kw):
+def evolve_cfg(obj, method, M=6, **kw):
     from renormalizer.utils import EvolveConfig, CompressConfig, CompressCriteria
     obj.evolve_config = EvolveConfig(method, **kw)
-    obj.compress_config = CompressConfig(CompressCriteria.fixed, max_bonddim=6)
+    obj.compress_config = CompressConfig(CompressCriteria.fixed, max_bonddim=M)
 
 
 def derivations(fam):
@@ -193,6 +193,11 @@ def derivations(fam):
                     evolve_cfg(s, method, **kw2)
                     return s.evolve(getattr(c, hk), dt)
                 D[f"evolve[{name},{timek},{hk}]"] = f
+        # the same call on a state whose bonds are LARGER than the configured limit (the result is truncated; the input must not be)
+        def ft(c, s, method=method, kw=kw):
+            evolve_cfg(s, method, M=1, **kw)
+            return s.evolve(c.H, 0.04)
+        D[f"evolve[{name},real,H,limit-below-input-bonds]"] = ft
     if fam == "holstein":
         for space in ("GS", "EX"):
             for hk in ("H", "Hoff"):
@@ -341,11 +346,11 @@ def tree_same(c, obj, s, tol=TOL):
     return None
 
 
-def tree_cfg(t, scheme):
+def tree_cfg(t, scheme, M=6):
     from renormalizer.utils import EvolveConfig, EvolveMethod, CompressConfig, CompressCriteria
     method = {"vmf": EvolveMethod.tdvp_vmf, "pc": EvolveMethod.prop_and_compress_tdrk4, "ps": EvolveMethod.tdvp_ps, "ps2": EvolveMethod.tdvp_ps2}[scheme]
     t.evolve_config = EvolveConfig(method, force_ovlp=False, ivp_rtol=1e-5, ivp_atol=1e-8)
-    t.compress_config = CompressConfig(CompressCriteria.fixed, max_bonddim=6)
+    t.compress_config = CompressConfig(CompressCriteria.fixed, max_bonddim=M)
 
 
 def tree_derivations():
@@ -353,6 +358,7 @@ def tree_derivations():
     for scheme in ("vmf", "pc", "ps", "ps2"):
         for timek, dt in (("real", 0.04), ("imag", -0.04j)):
             D[f"evolve[{scheme},{timek}]"] = lambda c, s, scheme=scheme, dt=dt: (tree_cfg(s, scheme), s.evolve(c.H, dt))[1]
+        D[f"evolve[{scheme},real,limit-below-input-bonds]"] = lambda c, s, scheme=scheme: (tree_cfg(s, scheme, M=1), s.evolve(c.H, 0.04))[1]
     D["evolve[ps,real,normalize=False]"] = lambda c, s: (tree_cfg(s, "ps"), s.evolve(c.H, 0.04, normalize=False))[1]
     D["H.apply(s)"] = lambda c, s: c.H.apply(s)
     D["H@s"] = lambda c, s: c.H @ s
